@@ -34,6 +34,8 @@ class Scn:
                 out.append("D %d" % v)
             elif k == "C":
                 out.append("C")
+            elif k == "H":
+                out.append("H " + v)          # hybrid-mode API call (tools/hybrid.py)
         if self.close:
             out.append("C")
         out.append("E")
